@@ -38,7 +38,7 @@ CHECKS = {
              "interleavings. All harness-enforceable schedules of the model (which test case blocks, spins, "
              "naps or raises; when each blocked call is released: in time, after its timeout, while a later "
              "test runs, after everything) are replayed on the real TestCaseExecutor with generated "
-             "instrumented SUT functions and gates; TLC validates the real results (ExecutorTrace.tla).",
+             "instrumented SUT functions and gates; TLC validates the real results (ExecutorTrace.tla). Every third schedule runs on the TypeTracingTestCaseExecutor (terminating test cases are executed twice, timed-out ones must not be: NoReexecutionAfterTimeout, counted by an uninstrumented entry counter, independent of machine load).",
         note="Timeout 0.25 s, grace 6 s. Races inside instrumented code (the check/record window) are "
              "explored in the model only; replay controls threads at uninstrumented blocking points. "
              "The model also exhibits the NoSpuriousTimeout hazard (late unwinding aborts the current test), "
@@ -53,7 +53,7 @@ CHECKS = {
              "comparison kind x pair of 80 value classes (plus truthiness, exception matching, identity of the "
              "same object, the auxiliary subscript predicate): 60k cases, each executed on the real "
              "ExecutionTracer callbacks with concrete representatives; TLC evaluates WellFormed / "
-             "RaisesOnlyIfOpRaises on the observed distances with Python's own operator as reference.",
+             "RaisesOnlyIfOpRaises on the observed distances with Python's own operator as reference. Value classes include user classes whose == and != are not complementary.",
         note="Case partition with one representative per class and boundary members; not all floats/ints are "
              "enumerated and the numeric accuracy of non-zero distances is not claimed.",
         technique="TLA+ spec of the abstract distance domain + TLC case enumeration replayed on the real tracer; TLC trace validation",
@@ -67,7 +67,7 @@ CHECKS = {
              "(statement sequences; 13 ways in which traced code raises or must not raise; caught by the SUT or "
              "escaping) that run on the real TestCaseExecutor with generated instrumented modules; TLC validates "
              "the observed per-statement flags, the lines/predicates executed after the catch and the reported "
-             "exceptions (TracerProgTrace.tla).",
+             "exceptions (TracerProgTrace.tla). (c) idiom and stdlib corpus under BRANCH+LINE and BRANCH+LINE+CHECKED: in every execution in which the interpreter raised inside the module (RAISE event) lines and branch outcomes reported equal the interpreter's, and the tracer is enabled afterwards (IdiomTrace.tla RecordingContinuesLines/Outcomes, EnabledRestored).",
         note="The enabled flag is read in the executing thread by wrapping the executor's statement hooks at run "
              "time; BRANCH+LINE instrumentation; statement sequences of length <= 2 (quick) / 3 (thorough).",
         technique="TLA+ spec + TLC; TLC-enumerated programs replayed on the real executor; TLC trace validation",
@@ -112,7 +112,7 @@ CHECKS = {
              "BRANCH/LINE metrics x seeds) record the report object, the coverage values Pynguin tracked and "
              "counts recomputed from the final suite's merged execution trace; TLC validates every generated suite "
              "(ReportTrace.tla: TotalsEqualTracked, TotalsEqualRecomputed, AnnotationsSumToTotals, "
-             "LineShownCoveredIffCovered).",
+             "LineShownCoveredIffCovered). The rendered cov_report.xml is parsed as well: a line is marked hit exactly when the report object says the line or something on it is covered (XmlHitsFollowAnnotations); corpus module c_report holds lines that carry a predicate and branch-less code objects at once.",
         note="Suites come from short searches (3 iterations) on small deterministic modules; floats are compared as "
              "rationals with denominator <= 10^6.",
         technique="TLA+ spec + TLC; recorded end-to-end runs validated by TLC",
@@ -124,7 +124,7 @@ CHECKS = {
              "(a raising statement is wrapped in pytest.raises when expected, otherwise the function is marked "
              "xfail(strict); ExportVerdict). The file every end-to-end run exports is run with the real pytest in a "
              "fresh interpreter against the uninstrumented module; TLC validates collection and every per-test "
-             "outcome (PipelineTrace.tla: FileImportsCleanly, TestVerdicts: passed, or xfailed exactly when marked).",
+             "outcome (PipelineTrace.tla: FileImportsCleanly, TestVerdicts: passed, or xfailed exactly when marked). P2: TLC enumerates small suites over harness/sut/pp_sut.py (MC_PipelineProg: constructor, state-changing calls with and without branches, property read, nested-class and enum results, a raising call); real AssertionGenerator (all assertions / assertions on every other statement only, as the mutation-analysis filter leaves them), real generator._minimize with CASE/SUITE/COMBINED/NONE x FORWARD/BACKWARD, real TestSuiteWriter; every exported function is executed (TestVerdicts).",
         note="End-to-end runs of the shared corpus (6 deterministic modules x DYNAMOSA/MIO/WHOLE_SUITE x SIMPLE/MUTATION_ANALYSIS/NONE x 7 minimisation strategy/direction pairs x seeds; 4 iterations each); runs are cached per tree hash. pytest runs with only the corpus directory on PYTHONPATH.",
         technique="TLA+ spec + TLC; exported files of recorded end-to-end runs executed by pytest; TLC trace validation",
         design_ref="4.12, 5/C18",
@@ -135,7 +135,7 @@ CHECKS = {
              "removal and export; the variant of remove_unused_variables before commit 1355a01 must violate it. "
              "End-to-end runs: every statement that carries reference assertions after assertion generation and "
              "assertion minimisation must appear in the exported file followed by as many assert lines; TLC "
-             "validates every such statement (PipelineTrace.tla: AssertionsKept).",
+             "validates every such statement (PipelineTrace.tla: AssertionsKept). P2: the same TLC-enumerated suites through the real pipeline; every oracle attached after assertion generation must follow its statement in the exported function (statements matched in order). Pipeline.tla models assertions attached to a statement about other objects and the minimiser's protection rule (the pre-fix rule violates KeepAsserts: Pipeline_carriers.cfg).",
         note="End-to-end runs of the shared corpus (6 deterministic modules x DYNAMOSA/MIO/WHOLE_SUITE x SIMPLE/MUTATION_ANALYSIS/NONE x 7 minimisation strategy/direction pairs x seeds; 4 iterations each); runs are cached per tree hash. Statements are located by whitespace-normalised source (full statement or its "
              "right-hand side). Open known finding: the opt-in SUITE strategy removes whole asserted test cases.",
         technique="TLA+ spec + TLC (must-fail variant); recorded end-to-end runs validated by TLC",
@@ -146,7 +146,7 @@ CHECKS = {
         text="Pipeline.tla: MinKeeps (coverage unchanged, only original statements, asserted statements kept) over "
              "all small test cases. End-to-end runs with CASE/SUITE/COMBINED/NONE x FORWARD/BACKWARD: coverage per "
              "optimised coverage function is recomputed by re-executing cache-free clones before and after "
-             "generator._minimize; TLC validates CoveragePreserved, OnlyOriginalStatements, AssertedStatementsKept.",
+             "generator._minimize; TLC validates CoveragePreserved, OnlyOriginalStatements, AssertedStatementsKept. P2: the same TLC-enumerated suites (one and two test cases), with and without assertions, through the real generator._minimize with every strategy and direction; coverage per function recomputed on cache-free clones (LINE and BRANCH together).",
         note="End-to-end runs of the shared corpus (6 deterministic modules x DYNAMOSA/MIO/WHOLE_SUITE x SIMPLE/MUTATION_ANALYSIS/NONE x 7 minimisation strategy/direction pairs x seeds; 4 iterations each); runs are cached per tree hash. Coverage floats compared by rank; statements by normalised source. Open known "
              "finding: SUITE strategy removes asserted test cases.",
         technique="TLA+ spec + TLC; recorded end-to-end runs validated by TLC",
@@ -158,7 +158,7 @@ CHECKS = {
              "real test cluster) and re-exported by the real TestSuiteWriter; for every exported test function TLC "
              "compares the hash of its code with the hash of the code rendered from the re-parsed test case "
              "(PipelineTrace.tla: SeedRoundTrip). Pipeline.tla is the design model of the pipeline producing the "
-             "corpus.",
+             "corpus. P2: TLC-enumerated test cases over harness/sut/pp_sut.py (all statement kinds, with and without assertions, unminimised and CASE-minimised so that unused bindings become bare expression statements) exported, re-parsed by the real seed parser and exported again, function by function.",
         note="Sampling over generated suites (shared end-to-end corpus): parser fidelity is not enumerable; TLA+ "
              "contributes the pipeline model and the formula evaluation. Open known finding: bare enum references "
              "come back alias-qualified (textual difference only).",
@@ -170,7 +170,7 @@ CHECKS = {
         text="Pairs of end-to-end runs with identical configuration and seed but different PYTHONHASHSEED in fresh "
              "interpreters; TLC evaluates SameSeedSameSuite on the hashes of the two exported files and the first "
              "diverging pipeline stage (search result, assertions, minimisation, export) is reported for "
-             "localisation (PipelineTrace.tla).",
+             "localisation (PipelineTrace.tla). Corpus module c_hashy (enum with several methods, callables with several optional parameters, *args/**kwargs, two exception classes) is run with more iterations.",
         note="A hyperproperty over two whole runs is sampled (6..54 pairs), not enumerated. Found and repaired with "
              "it: hash-seed dependent iteration in TestCase._resolve_head_references (6dcfafc).",
         technique="two-run trace validation with TLC (lock-step comparison of recorded pipeline stages)",
@@ -184,7 +184,7 @@ CHECKS = {
              "every decision vector; each case is rendered to Python, run uninstrumented under sys.monitoring "
              "(interpreter ground truth) and through Pynguin's real import hook; TLC validates ReportedLinesExact "
              "and NoForeignLines on every case and cross-checks the semantics' own prediction against the "
-             "interpreter (0 mismatches = the TLA+ semantics is right for the fragment).",
+             "interpreter (0 mismatches = the TLA+ semantics is right for the fragment). Plus the idiom and stdlib corpus (see C01): what Pynguin reports after an execution (import trace merged with the execution's trace) = import-time plus call-time LINE events of sys.monitoring over every code object of the module; results re-read after the suite-level analyze_results of all executions (IdiomTrace.tla ReportedLinesExact, NoForeignLines, SuiteAnalysisKeepsLines, MergedLinesAreUnion).",
         note="Exhaustive for programs with one compound statement (bodies of <= 2 simple statements) x decision "
              "vectors of length 3 (quick: 3 vectors per program), thorough adds 12000 nested depth-2 cases; Python "
              "outside the fragment (comprehensions, generators, with, match, closures, classes) is not covered.",
@@ -198,7 +198,7 @@ CHECKS = {
              "sys.monitoring BRANCH events of the uninstrumented code object and compared by TLC with the outcomes "
              "Pynguin's trace reports as covered (BranchOutcomesExact); the number of registered predicates per "
              "line must equal the number of reachable conditional jumps / FOR_ITER (PredicatesRegistered) and "
-             "the code object must be reported as entered.",
+             "the code object must be reported as entered. Plus the idiom and stdlib corpus (see C01): outcomes per deciding line = BRANCH events, one predicate per reachable conditional jump / FOR_ITER of every code object (IdiomTrace.tla BranchOutcomesExact, PredicatesRegistered, SuiteAnalysisKeepsOutcomes), and at callback level over the C04 enumeration: the outcome Python takes is recorded exactly once, nothing is recorded when the operator raises (TracerTrace.tla EvaluationRecorded, NothingRecordedIfOpRaises).",
         note="Comparison per source line (union over the jumps of that line) with Pynguin's own polarity rules per "
              "opcode; jumps in dead handlers (try body cannot raise) are not expected to be registered. Boolean "
              "operators, chained comparisons and match statements are outside the fragment.",
@@ -212,9 +212,8 @@ CHECKS = {
              "operation raises (ObserveOnly, OnlyRaisesIfOpRaises); (c) every PyMini program x decision vector run "
              "uninstrumented and instrumented under rotating metric combinations (BRANCH, LINE, CHECKED; dynamic "
              "seeding always installed): instrumentation succeeds and return value, exception type and side-effect "
-             "markers are identical (InstrumentationSucceeds, BehaviourPreserved).",
-        note="The abstract stack machine of DESIGN 4.5 (part a) is not built. Side effects = list markers, return "
-             "value, exception type; the PyMini fragment only.",
+             "markers are identical (InstrumentationSucceeds, BehaviourPreserved). (d) idiom corpus: ~55 hand-written functions using constructs outside PyMini (comprehensions, generators, coroutines, with, match, except*, descriptors, __getattr__, super(), closures, dataclasses/enums, huge ints, NaN, raising protocols, multi-line keyword calls) and 44 pure-Python standard library modules copied under a new name with deterministic driver expressions (quick: 7), each x 8 inputs x every metric combination in forked children (an interpreter crash is an observation): IdiomTrace.tla InstrumentationSucceeds, BehaviourPreserved against the uninstrumented run.",
+        note="The abstract stack machine of DESIGN 4.5 (part a) is not built. Side effects = list markers, return value, exception type. For the idiom and stdlib corpus the reference is the interpreter, not a TLA+ semantics. A predicate probe evaluates the operator of its own predicate once more than the interpreter (Pynguin's design); repeated calls of the same operator are outside the property.",
         technique="TLA+ specs (TracerOps, PyMini) + TLC enumeration replayed on the real tracer / import hook; TLC trace validation",
         design_ref="4.3, 4.6, 5/C01",
     ),
@@ -225,7 +224,7 @@ CHECKS = {
              "two) and every --no-cover/--only-cover configuration over a second function, a class and its method, "
              "plus the `__main__` and TYPE_CHECKING blocks; each case is rendered, imported through Pynguin's real "
              "hook and TLC compares the registered line goals, predicates and code objects with the prediction "
-             "(NoGoalInExcludedCode, AllOtherLinesAreGoals).",
+             "(NoGoalInExcludedCode, AllOtherLinesAreGoals). Scope configurations include a method of a class nested in a class (Outer.Inner.deep) and only_cover of a class; try/else clauses are part of the program universe.",
         note="'Excluded code' for a marker on a compound header = header + the branch it heads; on a clause line = "
              "that clause. Executable line = reachable line of the compiled code object. elif chains, match "
              "statements and nested scopes deeper than class.method are not generated.",
